@@ -124,6 +124,8 @@ Sat(G, T, f, env, d) ==
          IN Cardinality({ q \in PathsOf(Sub(T, inP)) : Sub(T, inP \o q).nt /\ Sub(T, inP \o q).n = needle }) = k
     [] f.op = "smt" -> Holds(f.term, SmtEnv(T, env))
 
+(* TLC's integers are 32-bit: arithmetic on numerals of more than 4 digits may overflow: such trees are not judged *)
+HasBigNumeral(T) == \E p \in PathsOf(T) : LET y == Yield(Sub(T, p)) IN Len(y) > 4 /\ IsDigits(y)
 Env0 == [x \in {"start"} |-> PathVal(<<>>)]
 SatTop(G, T, f, d) == Sat(G, T, f, Env0, d)
 
